@@ -180,6 +180,10 @@ def worker(chunk, seed, tier):
                 muts = fe.line_edits(text)
             elif group == "tokens":
                 muts = fe.token_substitutions(text)
+            elif group == "table-rows":
+                muts = fe.table_row_deletions(text, max_tables=None if tier == "thorough" else 150)
+            elif group == "counters":  # every integer token off by one: counts that disagree with what follows
+                muts = fe.token_substitutions(text, menu=["DEC1", "INC1"], max_tokens=None if tier == "thorough" else 4000)
             elif group.startswith("truncate-lines-every"):
                 step = int(group.rsplit("-", 1)[1])
                 muts = (m for i, m in enumerate(fe.line_truncations(text)) if i % step == 0)
@@ -296,7 +300,8 @@ def corpus_files():
     for fn in sorted(os.listdir(CORPUS)):
         if fn.endswith((".npy", ".py", ".txt")):
             continue
-        fmt = "json_qcschema" if fn.endswith(".json") else None
+        # formats without a usable file-name pattern in the corpus are selected explicitly
+        fmt = "json_qcschema" if fn.endswith(".json") else "qchemlog" if ("qchem" in fn and fn.endswith(".out")) else "extxyz" if fn in ("mgo.xyz", "al_fcc.xyz", "water_extended_trajectory.xyz") else None
         try:
             _select_format_module(fn, "load_one", fmt)
         except Exception:  # noqa: BLE001
@@ -325,6 +330,8 @@ def run(ctx):
             jobs.append((*item, "truncate-bytes"))
         if nlines <= 120 or ctx.thorough:
             jobs.append((*item, "tokens"))
+        else:
+            jobs.append((*item, "counters"))
     small_limit = 300 if not ctx.thorough else 3000
     for item in corpus:
         nlines = item[3].count("\n")
@@ -335,10 +342,14 @@ def run(ctx):
             step = max(2, nlines // (60 if not ctx.thorough else 400))
             jobs.append((*item, f"truncate-lines-every-{step}"))
             capped.append((item[1], nlines, step))
-        if nlines <= 60 or (ctx.thorough and nlines <= 400):
+        if nlines <= 60 or (ctx.thorough and nlines <= 3000):
             jobs.append((*item, "line-edits"))
+        else:
+            jobs.append((*item, "table-rows"))
         if ctx.thorough and nlines <= 60:
             jobs.append((*item, "tokens"))
+        elif nlines <= (150 if not ctx.thorough else 1500):
+            jobs.append((*item, "counters"))
     jobs.sort(key=lambda j: -len(j[3]))
     pmap(ctx, worker, jobs, chunk=1)
     # special content
@@ -366,7 +377,7 @@ def run(ctx):
     ctx.exhaustive = not capped
     ctx.rule = (
         f"every line-boundary truncation of every generated file and of every corpus file with <= {small_limit} lines (larger files: every n-th line, listed under capped_files); every byte truncation of "
-        "generated files <= 6000 bytes; every single-line delete/duplicate/swap and every single-token substitution from an 8-entry menu on generated (and small corpus) files; empty, binary and "
+        "generated files <= 6000 bytes; every single-line delete/duplicate/swap and every single-token substitution from a 10-entry menu on generated (and small corpus) files; on larger files every integer token off by one (counters) and the first/middle/last row deleted from every table (run of equally shaped lines); empty, binary and "
         "newline-only content under every name; every generated file's content under every other format's name; explicit fmt= for every module. Each mutated file is loaded with load_one and, where "
         "available, load_many (exhausted; every 7th truncation also closed and dropped after 0, 1 and 2 requested frames). Non-trivial/distinct = (file, fault group, outcome class)."
     )
